@@ -458,6 +458,23 @@ pub fn gen_c15(out: &mut dyn Write, thorough: bool, seed: u64) {
             emit(out, &mut r, t, &l);
         }
     }
+    // long sentences: block seams of any size (uniform character type, all boundaries set, line breaks at seams)
+    for &n in &[16usize, 17, 33, 65, 129, 256, 257, 258, 400, 513, 770] {
+        for (fill, brk) in [('7', None), ('a', None), ('あ', None), ('7', Some('\n')), ('カ', Some('\r'))] {
+            let text: String = (0..n).map(|i| match brk { Some(b) if i % 64 == 63 || i % 64 == 0 || i == n - 1 => b, _ => fill }).collect();
+            for lab in ['W', 'U', 'N'] {
+                let labels: String = std::iter::repeat(lab).take(n - 1).collect();
+                let pre = format!("Fraw:{},setbs:{}", hexs(&text), labels);
+                let t = vaporetto::CharacterType::get_type(fill) as u8;
+                writeln!(out, "S {pre},filter:ws:{t},obs:TYBKG c15").unwrap();
+                writeln!(out, "S {pre},filter:lb,obs:TYBKG c15").unwrap();
+                if n <= 258 {
+                    let cl = cluster_lengths(&text).iter().map(|x| x.to_string()).collect::<Vec<_>>().join(".");
+                    writeln!(out, "S {pre},filter:gc:{cl},obs:TYBKG c15").unwrap();
+                }
+            }
+        }
+    }
     let count = if thorough { 60000 } else { 1200 };
     for _ in 0..count {
         let text = grapheme_text(&mut r, 8);
